@@ -11,7 +11,7 @@ import copy
 import json
 import os
 import sys
-from typing import Any, Dict, List, Optional, Tuple, Union
+from typing import Any, Callable, Dict, List, Optional, Tuple, Union
 
 from jsonargparse import ActionConfigFile, ActionYesNo, ArgumentParser, Namespace, lazy_instance
 from jsonargparse.typing import PositiveFloat, PositiveInt
@@ -101,6 +101,8 @@ def shape_classes(eoe):
     p.add_class_arguments(zoo.SubB, "grp")
     p.add_argument("--tp", type=type)
     p.add_argument("--kw", type=zoo.WithDictKwargs)
+    p.add_argument("--fac", type=Callable[[int], zoo.Base])  # a callable returning an instance: given as a class spec too
+    p.add_argument("--facs", type=List[Callable[[int], zoo.Base]])
     p.add_argument("--dec", type=__import__("decimal").Decimal)
     p.add_argument("--rng", type=range)
     return p
@@ -166,7 +168,7 @@ SHAPES = {"dcf": shape_dcf, "flat": shape_flat, "classes": shape_classes, "sub":
 OPTIONS = {
     "dcf": ["cfg", "num", "req", "name", "list", "g.x", "g"],
     "flat": ["cfg", "num", "ratio", "name", "flag", "yes", "no_yes", "list", "dict", "tup", "opt", "color", "pos", "g.x", "g.h.y", "g", "g.h", "choice", "many", "any", "any.x", "name.x", "chs", "pf", "td"],
-    "classes": ["cfg", "sub", "osub", "subs", "dsub", "holder", "dc", "odc", "grp", "tp", "kw", "dec", "rng", "sub.init_args.a", "sub.class_path", "sub.a", "sub.init_args", "holder.child", "holder.init_args.child", "holder.init_args.child.init_args.a",
+    "classes": ["cfg", "sub", "osub", "subs", "dsub", "holder", "dc", "odc", "grp", "tp", "kw", "dec", "rng", "fac", "fac", "facs", "fac.init_args", "fac.init_args.a", "fac.class_path", "sub.init_args.a", "sub.class_path", "sub.a", "sub.init_args", "holder.child", "holder.init_args.child", "holder.init_args.child.init_args.a",
                 "dc.inner.name", "dc.inner.tags", "dc.pt", "grp.c", "kw.dict_kwargs", "kw.dict_kwargs.z", "kw.init_args.q", "subs.init_args.a", "dsub.k", "dsub.k.init_args.a", "sub.help", "osub.help"],
     "sub": ["cfg", "top", "fit.x", "x", "l", "y", "z", "fit", "test", "test.deep.z"],
     "links": ["cfg", "a", "b", "m", "m.init_args.a", "m.init_args.b", "m.class_path"],
